@@ -54,7 +54,9 @@ func (b *builder) filler(tag string, max int, need bool) {
 	}
 }
 
-var faults = []string{"undefined-symbol", "(throw \"x\")", "(nth [] 1)", "(assert false)", "(read-string \"(1 2\")", "(eval (read-string \"(nth [] 3)\"))"}
+var faults = []string{"undefined-symbol", "(throw \"x\")", "(nth [] 1)", "(assert false)", "(read-string \"(1 2\")", "(eval (read-string \"(nth [] 3)\"))",
+	// call forms built by a library macro (they carry no position of their own)
+	"(-> [] (nth 1))", "(->> 1 (nth []))"}
 
 type span struct{ from, to int }
 
